@@ -44,10 +44,22 @@ def main():
         meta['files_touched'] = sh('git -C %s diff --stat' % scr).stdout.strip().splitlines()
         if not a.skip_tests:
             t = time.time()
-            r = sh('cd %s && /venv/bin/python -m pytest -q -p no:cacheprovider -n 8 --timeout=1800 %s' % (scr, ' '.join(TESTS)),
-                   timeout=3600, env=env)
-            meta['existing_tests_with_patch'] = {'cmd': 'pytest -n 8 ' + ' '.join(TESTS), 'exit': r.returncode,
-                                                 'summary': r.stdout.strip().splitlines()[-1:] , 'wall_s': round(time.time() - t)}
+            jx = '/tmp/vf-seeded-junit-%s%s.xml' % (a.prop, a.tag)
+            r = sh('cd %s && /venv/bin/python -m pytest -q -p no:cacheprovider -n 8 --timeout=1800 --junitxml=%s %s' % (
+                scr, jx, ' '.join(TESTS)), timeout=5400, env=env)
+            import xml.etree.ElementTree as ET
+            passed = set()
+            for tc in ET.parse(jx).getroot().iter('testcase'):
+                if not any(c.tag in ('failure', 'error', 'skipped') for c in tc):
+                    passed.add(tc.get('classname') + '::' + tc.get('name'))
+            os.remove(jx)
+            stable = set(json.load(open('/root/.vp/BASELINE.json'))['stable_pass'])
+            missing = sorted(stable - passed)
+            meta['existing_tests_with_patch'] = {'cmd': 'pytest -n 8 ' + ' '.join(TESTS), 'pytest_exit': r.returncode,
+                                                 'exit': 0 if not missing else 1,
+                                                 'baseline_stable_tests': len(stable), 'baseline_stable_tests_passing': len(stable & passed),
+                                                 'baseline_stable_tests_failing': missing[:10],
+                                                 'summary': r.stdout.strip().splitlines()[-1:], 'wall_s': round(time.time() - t)}
         for p in props:
             t = time.time()
             r = sh('cd /verif && /venv/bin/python -m vf.run %s --tier %s --repo %s' % (p, a.tier, scr), timeout=7200)
